@@ -45,7 +45,9 @@ def run(tier, seed, replay=None):
     rby_cls = {c: [a for a in redirs if a.cls == c] for c in bg.ORDER}
 
     progs = []
-    if replay:
+    if replay and replay.get("kind") == "redirect-pair":
+        progs = []
+    elif replay:
         progs = [bg.Prog(replay["program"], [bg.Atom(t, c, k) for t, c, k in replay["parts"]], "replay")]
     else:
         progs += bg.systematic(by_cls)
@@ -71,7 +73,7 @@ def run(tier, seed, replay=None):
             except RecursionError:
                 out.count("skipped", "recursion")
                 continue
-            if impl == "ask" and dec.reason.startswith("parse error"):
+            if impl == "ask" and lib.parser_rejects(p.text):
                 # the vendored parser rejects this (valid) program: C05 mandates ask; the
                 # composition law speaks about analysed trees.  Counted, not judged.
                 out.count("skipped", "parser-rejected")
@@ -108,6 +110,31 @@ def run(tier, seed, replay=None):
                 out.disagreements.append({"correspondence": "Walker.analyze_nodes <-> analyzer.analyze",
                                           "program": p.text, "model": mv, "impl": impl,
                                           "config": bg.CONFIG_TEXT, "cwd": bg.CWD})
+        # two redirections on one node: every ordered pair of (operator, target), the same target twice included -
+        # the verdict of the pair is the join of the verdicts of the two single-redirect programs
+        if not replay or replay.get("kind") == "redirect-pair":
+            from . import bashgen_ext as bx
+            single = {}
+
+            def v1(text):
+                if text not in single:
+                    single[text] = an.analyze(text, cfg, Path(bg.CWD)).action
+                return single[text]
+
+            pairs = [("replay", replay["program"], tuple(replay["singles"]))] if replay else bx.redirect_pairs(tier)
+            for label, text, (s1, s2) in pairs:
+                impl = an.analyze(text, cfg, Path(bg.CWD)).action
+                expected = bg.vmax([v1(s1), v1(s2)])
+                out.case(text)
+                out.count("shape", label)
+                out.count("verdict", impl)
+                if impl != expected:
+                    out.violations.append({"kind": "redirect-pair", "what": f"analyze(whole)={impl} but the two redirections alone give {v1(s1)} and {v1(s2)}",
+                                           "program": text, "singles": [s1, s2], "config": bg.CONFIG_TEXT, "cwd": bg.CWD, "signature_text": text})
+                mv = model_analyze(model, cfg, text, bg.CWD)
+                if mv != impl:
+                    out.disagreements.append({"correspondence": "Walker.analyze_nodes <-> analyzer.analyze", "program": text, "model": mv, "impl": impl,
+                                              "config": bg.CONFIG_TEXT, "cwd": bg.CWD})
     finally:
         model.close()
     n, mism = core.coq_crosscheck("C03", xcheck)
@@ -115,6 +142,7 @@ def run(tier, seed, replay=None):
     if mism:
         out.disagreements.append({"correspondence": "extracted OCaml model <-> vm_compute in Coq", "detail": mism[:5]})
     out.extra["rule"] = ("systematic: every C03 constructor x every multiset of <=3 verdict classes, every order of "
-                         "command/redirect/substitutions in one simple command; random: compositions to depth "
+                         "command/redirect/substitutions in one simple command; every ordered pair of (operator, target) redirections on one node "
+                         "(same target twice included) against the join of the two single-redirect programs; random: compositions to depth "
                          "5 (quick) / 9 (thorough). distinct = distinct program texts; non-trivial = at least two constituents")
     return out
